@@ -21,6 +21,10 @@ for p in sorted(props.REGISTRY):
             counts[i.rule] = counts.get(i.rule, 0) + 1
     fl = {}
     for r, c in sorted(counts.items()):
+        # pattern rules: an instance exists only where the pattern occurs (a scan loop with a return, a memo, an index()
+        # call ...); the pattern may legitimately disappear, so these rules carry no floor
+        if r in ('R-WORK.W7', 'R-WORK.W6', 'R-INJ.index', 'R-INJ.memo', 'R-INJ.key', 'R-INJ.word'):
+            continue
         if r.startswith(('R-SORT', 'R-INJ')):
             f = max(1, math.floor(0.5 * c))
         elif c == 1:
